@@ -186,7 +186,7 @@ def sweep_units(tier):
     return out
 
 
-def units(tier, seed, nchunks=128, hist_depth=None, delim_in_prefix=False, hook=False, shared_records=False):
+def units(tier, seed, nchunks=128, hist_depth=None, delim_in_prefix=False, hook=False, shared_records=False, prefix_subclass=False):
     cfgs = configurations(tier)
     out = [{"tier": tier, "cfgs": [recs_to_json(c) for c in ch]} for ch in chunks(cfgs, nchunks)]
     out.extend(sweep_units(tier))
@@ -205,6 +205,11 @@ def units(tier, seed, nchunks=128, hist_depth=None, delim_in_prefix=False, hook=
         sub = [c for i, c in enumerate(cfgs) if i % 9 == 4][:400]
         for ch in chunks(sub, 8):
             out.append({"tier": tier, "cfgs": [recs_to_json(c) for c in ch], "delims": [":", "/"], "mode": "shared-records", "qlen": 2})
+    if prefix_subclass:
+        # a subclass overriding standardize_prefix (case-insensitive lookup), on a subset of the configurations
+        sub = [c for i, c in enumerate(cfgs) if i % 9 == 2][:400]
+        for ch in chunks(sub, 8):
+            out.append({"tier": tier, "cfgs": [recs_to_json(c) for c in ch], "delims": [":", "/"], "mode": "subclass-prefix", "qlen": 2})
     if hook:
         # a subclass using the documented identifier hook, on a subset of the configurations
         sub = [c for i, c in enumerate(cfgs) if i % 9 == 0][:400]
@@ -332,6 +337,10 @@ def run_case(check_config, case, ctx=None):
                 cur_model = Model(recs, d, hook=ident_hook)
             elif mode == "copies":
                 conv, inputs = build_copies(recs, d)
+            elif mode == "subclass-prefix":
+                from ..impl import FoldingConverter
+
+                conv = FoldingConverter([to_record(r) for r in recs], delimiter=d)
             elif mode == "shared-records":
                 import copy as _copy
 
